@@ -60,14 +60,21 @@ Qed.
 
 (* a numbered prefix is passed over *)
 Lemma alloc_numbered_prefix A : forall B g,
-  (forall t, In t A -> t_mid t <> "" /\ bump g (t_mid t) = g) ->
+  (forall t, In t A -> t_mid t <> "") ->
   alloc_mids g (A ++ B) = (fst (alloc_mids g B), A ++ snd (alloc_mids g B)).
 Proof.
   induction A as [|t rest IH]; intros B g H.
   - cbn. destruct (alloc_mids g B). reflexivity.
-  - cbn [List.app alloc_mids]. destruct (H t (or_introl eq_refl)) as [Hne Hb].
-    unfold mid_unset. rewrite (eqb_empty_false _ Hne), Hb.
+  - cbn [List.app alloc_mids]. pose proof (H t (or_introl eq_refl)) as Hne.
+    unfold mid_unset. rewrite (eqb_empty_false _ Hne).
     rewrite IH by (intros t0 Ht0; apply H; right; exact Ht0). reflexivity.
+Qed.
+
+(* the first pass over k numbered and m unset transceivers leaves the counter at k-1 *)
+Lemma bump_trs_fixed l : forall g, (forall t, In t l -> bump g (t_mid t) = g) -> bump_trs g l = g.
+Proof.
+  unfold bump_trs. induction l as [|t rest IH]; intros g H; [reflexivity|]. cbn [fold_left].
+  rewrite (H t (or_introl eq_refl)). apply IH. intros t0 Ht0. apply H. right. exact Ht0.
 Qed.
 
 Lemma shape_split k m l :
@@ -110,7 +117,18 @@ Proof.
       rewrite (map_seq_from numeral m k). apply map_ext. intro i. unfold numeral. f_equal. lia.
   - intros t Ht. assert (Hin : In (t_mid t) (map t_mid A)) by (apply in_map; exact Ht).
     rewrite HA in Hin. unfold numerals in Hin. apply in_map_iff in Hin. destruct Hin as (i & <- & Hi).
-    apply in_seq in Hi. split; [apply numeral_nonempty|]. apply bump_numeral; lia.
+    apply numeral_nonempty.
+Qed.
+
+Lemma bump_trs_shape k m l :
+  shape k m l -> (Z.of_nat k <= max_int)%Z -> bump_trs (Z.of_nat k - 1) l = (Z.of_nat k - 1)%Z.
+Proof.
+  intros Hs Hmax. apply bump_trs_fixed. intros t Ht.
+  assert (Hin : In (t_mid t) (map t_mid l)) by (apply in_map; exact Ht).
+  unfold shape in Hs. rewrite Hs in Hin. apply in_app_or in Hin. destruct Hin as [Hin|Hin].
+  - unfold numerals in Hin. apply in_map_iff in Hin. destruct Hin as (i & <- & Hi).
+    apply in_seq in Hi. apply bump_numeral; lia.
+  - apply repeat_spec in Hin. rewrite Hin. reflexivity.
 Qed.
 
 (* ---------- the invariant before any remote description ---------- *)
@@ -149,7 +167,7 @@ Proof.
 Qed.
 
 Lemma offer_alloc_gmid s :
-  gmid (offer_alloc s) = fst (alloc_mids (bump_remote (gmid s) (cur_remote s)) (trs s)).
+  gmid (offer_alloc s) = fst (alloc_mids (offer_start s) (trs s)).
 Proof. unfold offer_alloc. destruct (alloc_mids _ (trs s)). reflexivity. Qed.
 
 Lemma step_pre n s o :
@@ -193,10 +211,12 @@ Proof.
     rewrite E in Hm, Hr1, Hr2, Fg, Fs, Fa, Fv. cbn [fst] in *.
     assert (Hb : (Z.of_nat (k + m) <= max_int)%Z) by lia.
     destruct (alloc_shape k m (trs s) Hsh Hb) as [A1 A2].
+    assert (Hst : offer_start s = (Z.of_nat k - 1)%Z).
+    { unfold offer_start. rewrite Hc, Hp. cbn [bump_remote]. rewrite Hg. apply (bump_trs_shape k m); [exact Hsh|lia]. }
     constructor; try congruence.
     exists (k + m)%nat, 0%nat. split; [|split; [|lia]].
-    + unfold shape in *. rewrite Hm, offer_alloc_trs, Hc, Hg. exact A2.
-    + rewrite Fg, offer_alloc_gmid, Hc, Hg. exact A1.
+    + unfold shape in *. rewrite Hm, offer_alloc_trs, Hst. exact A2.
+    + rewrite Fg, offer_alloc_gmid, Hst. exact A1.
   - (* CreateAnswer *)
     unfold create_answer, remote_desc. rewrite Hp, Hc. cbn [fst]. apply (pre_remote_mono n); [lia|exact Hpre].
   - (* SetLocal *)
@@ -226,6 +246,37 @@ Qed.
 Lemma offer_alloc_cur s : cur_remote (offer_alloc s) = cur_remote s.
 Proof. unfold offer_alloc. destruct (alloc_mids _ (trs s)). reflexivity. Qed.
 
+Lemma alloc_nowrap_small l : forall g,
+  (-1 <= g)%Z -> (g + Z.of_nat (List.length l) <= max_int)%Z -> alloc_nowrap g l = true.
+Proof.
+  induction l as [|t rest IH]; intros g H0 Hmax; [reflexivity|].
+  cbn [alloc_nowrap List.length] in *. rewrite Nat2Z.inj_succ in Hmax.
+  destruct (mid_unset t).
+  - apply andb_true_iff. split; [apply small_in_int; lia|apply IH; lia].
+  - apply IH; lia.
+Qed.
+
+Lemma alloc_nowrap_set_prefix A : forall B g,
+  (forall t, In t A -> t_mid t <> "") -> alloc_nowrap g (A ++ B) = alloc_nowrap g B.
+Proof.
+  induction A as [|t rest IH]; intros B g H; [reflexivity|].
+  cbn [List.app alloc_nowrap]. unfold mid_unset. rewrite (eqb_empty_false _ (H t (or_introl eq_refl))).
+  apply IH. intros t0 Ht0. apply H. right. exact Ht0.
+Qed.
+
+Lemma alloc_nowrap_shape k m l :
+  shape k m l -> (Z.of_nat (k + m) <= max_int)%Z -> alloc_nowrap (Z.of_nat k - 1) l = true.
+Proof.
+  intros Hs Hmax. destruct (shape_split _ _ _ Hs) as (A & B & -> & HA & HB).
+  rewrite alloc_nowrap_set_prefix.
+  - apply alloc_nowrap_small; [lia|].
+    assert (HlenB : List.length B = m) by (rewrite <- (map_length t_mid), HB, repeat_length; reflexivity).
+    rewrite HlenB. lia.
+  - intros t Ht. assert (Hin : In (t_mid t) (map t_mid A)) by (apply in_map; exact Ht).
+    rewrite HA in Hin. unfold numerals in Hin. apply in_map_iff in Hin. destruct Hin as (i & <- & Hi).
+    apply numeral_nonempty.
+Qed.
+
 (* a CreateOffer from such a state satisfies C06 *)
 Lemma pre_remote_offer_c06 n s s' d :
   pre_remote n s -> (Z.of_nat n <= max_int)%Z -> create_offer s = (s', Ok d) -> c06_holds d.
@@ -233,8 +284,10 @@ Proof.
   intros [Hc Hp Hna Hnv Hsig (k & m & Hsh & Hg & Hkm)] Hmax H.
   assert (Hb : (Z.of_nat (k + m) <= max_int)%Z) by lia.
   destruct (alloc_shape k m (trs s) Hsh Hb) as [A1 A2].
+  assert (Hst : offer_start s = (Z.of_nat k - 1)%Z).
+  { unfold offer_start. rewrite Hc, Hp. cbn [bump_remote]. rewrite Hg. apply (bump_trs_shape k m); [exact Hsh|lia]. }
   assert (Htrs : map t_mid (trs (offer_alloc s)) = numerals 0 (k + m)).
-  { rewrite offer_alloc_trs, Hc. cbn [bump_remote]. rewrite Hg. unfold shape in A2. rewrite A2. cbn. apply app_nil_r. }
+  { rewrite offer_alloc_trs, Hst. unfold shape in A2. rewrite A2. cbn. apply app_nil_r. }
   assert (Hor : offer_remote (offer_alloc s) = None).
   { unfold offer_remote. rewrite offer_alloc_cur, Hc. reflexivity. }
   eapply create_offer_c06; [| |exact H].
@@ -242,10 +295,7 @@ Proof.
     + rewrite (set_mids_shape _ _ _ Hsh). apply numerals_nodup.
     + split; intros d0 Hd; congruence.
   - unfold offer_guard. split; [|split; [|split]].
-    + unfold numbering_ok. rewrite set_mids_all.
-      * rewrite Htrs. apply numerals_nodup.
-      * intros t Ht. assert (Hin : In (t_mid t) (map t_mid (trs (offer_alloc s)))) by (apply in_map; exact Ht).
-        rewrite Htrs in Hin. unfold numerals in Hin. apply in_map_iff in Hin. destruct Hin as (i & <- & _). apply numeral_nonempty.
+    + unfold offer_nowrap. rewrite Hst. apply (alloc_nowrap_shape k m); assumption.
     + intros t r _ Hr. rewrite Hor in Hr. destruct Hr.
     + intros l base g E. unfold offer_sections in E. rewrite Hor in E. unfold gen_unmatched in E.
       injection E as _ <- _.
